@@ -18,4 +18,5 @@ LEVEL_NOTE = ('Trusted: Lean kernel; axioms ⊆ {propext, Classical.choice, Quot
               'standards\' known-answer vectors in the kernel and by independent Python references in the plugins; Serpent/Threefish have no other offline oracle); '
               'extract.py/runcheck.py/props/parts/c02_*.py. Theorem list: evidence/C02.json coverage.theorems; a name ending _partial is weaker than the '
               'commented full statement beside it.')
+LEVEL_NOTE += ''.join(' [%s] %s' % (p.__name__.split('.')[-1], p.LEVEL_NOTE) for p in PARTS if hasattr(p, 'LEVEL_NOTE'))
 TECHNIQUE = 'Lean 4 proof (kernel enumeration of complete finite domains, refinement by induction over rounds) + translator + correspondence check'
